@@ -211,6 +211,11 @@ Definition qtinit : qtrk := mkQT (fun _ => RAdmit) [] [] (fun _ => 0) (fun _ => 
 Definition spec_c07 (c : case) : bool := match c with CPool sc => spec_walk true false false qtinit sc end.
 Definition spec_c08 (c : case) : bool := match c with CPool sc => spec_walk false true false qtinit sc end.
 Definition spec_c09 (c : case) : bool := match c with CPool sc => spec_walk false false true qtinit sc end.
+(** C02 at this level: an exchange that ended with a reply is returned to the caller, whatever has happened
+    to the caller's context meanwhile (the clause that needs no flag). *)
+Definition spec_c02 (c : case) : bool := match c with CPool sc => spec_walk false false false qtinit sc end.
+Definition nontrivial_c02 (c : case) : bool :=
+  match c with CPool sc => existsb (fun ao => match fst ao with QFinish _ true => true | _ => false end) sc end.
 
 Definition nontrivial (c : case) : bool :=
   match c with CPool sc =>
